@@ -2234,7 +2234,14 @@ class Engine:
         args = []
         for a in n.args:
             if isinstance(a, ast.Starred):
-                args.extend(self.iter_concrete(self.eval(a.value)))
+                sv = self.eval(a.value)
+                content = self.heap[sv.id]["items"] if isinstance(sv, Ref) and self.kind(sv) == "list" else sv
+                if isinstance(content, SSeq):
+                    from .builtins_model import StarSeq
+
+                    args.append(StarSeq(content))
+                else:
+                    args.extend(self.iter_concrete(sv))
             else:
                 args.append(self.eval(a))
         kwargs = {}
@@ -2503,6 +2510,8 @@ class LoopCtx:
         return self._elem(i)
 
     def local(self, name):
+        if name not in self.env:
+            raise EngineError("anchor lost: the loop invariant refers to local variable `%s` which no longer exists" % name)
         v = self.env[name]
         return self.eng.ctx.view(v)
 
